@@ -130,6 +130,10 @@ def _agg(col, how):
         return col[0]
     if how == "mean":
         return sum(col) / len(col)
+    if how == "count":
+        return len(col)
+    if how == "range":
+        return max(col) - min(col)
     raise ValueError(how)
 
 
